@@ -54,6 +54,9 @@ def rand_value(r, name=None):
             return r.choice(vs)
     if k < 0.85:
         return rand_bytes(r, r.choice([1, 1, 2, 4, 9, 20]), "ascii")
+    if k > 0.988:
+        # a long run of one symbol at a power-of-two length (5-, 8- and 13-bit codes): buffer boundaries
+        return bytes([r.choice(b"0aX~")]) * r.choice([1023, 1024, 1024, 2048])
     return rand_bytes(r, rand_len(r))
 
 
@@ -210,6 +213,33 @@ def gen_huff(r, k):
         cmds += ["hdec %s %s" % (t, hx(data)) for t in "MGS"]
         cases.append({"family": "huff", "cmds": cmds, "meta": {"s": hx(s), "data": hx(data)}, "tags": tags})
     return cases
+
+
+def gen_huff_long(r):
+    """long strings at power-of-two lengths, one repeated symbol per code length and random mixtures:
+    total bit lengths that are exact multiples of 8, of 8192, one off, ... (chunked or buffered
+    encoders/decoders go wrong at such boundaries only)"""
+    cases = []
+    shapes = []
+    for ln in (5, 6, 7, 8, 10, 13):
+        if ln not in SYM_BY_LEN:
+            continue
+        sym = r.choice(SYM_BY_LEN[ln])
+        for L in (1023, 1024, 1025, 2048, 4096):
+            shapes.append(("repeat-%d-bit-code" % ln, bytes([sym]) * L))
+    for L in (1024, 1638, 2048, 3000):
+        shapes.append(("long-mixed", bytes(r.choice(SYM_BY_LEN[r.choice((5, 6, 7, 8))]) for _ in range(L))))
+        shapes.append(("long-ascii", rand_bytes(r, L, "ascii")))
+    for tag, s in shapes:
+        enc = S.huff_enc(s)
+        tags = ["long", tag] + (["octet-aligned"] if len(S.huff_bits(s)) % 8 == 0 else [])
+        cmds = ["henc %s %s" % (t, hx(s)) for t in "MGS"] + ["hdec %s %s" % (t, hx(enc)) for t in "MGS"]
+        cases.append({"family": "huff", "cmds": cmds, "meta": {"s": hx(s), "data": hx(enc)}, "tags": tags})
+    return cases
+
+
+def gen_huff_all(r, k):
+    return gen_huff_long(r) + gen_huff(r, k)
 
 
 def gen_huff_exhaustive():
@@ -597,7 +627,7 @@ def gen_dec_all(r, k):
     return gen_dec(r, k - kb) + gen_bigtable(r, kb)
 
 
-FAMILIES = {"int": gen_int, "huff": gen_huff, "table": gen_table, "dec": gen_dec_all, "bomb": gen_bomb, "pair": gen_pair}
+FAMILIES = {"int": gen_int, "huff": gen_huff_all, "table": gen_table, "dec": gen_dec_all, "bomb": gen_bomb, "pair": gen_pair}
 
 
 # ------------------------------------------------------------------ API forms (C18)
